@@ -8,7 +8,7 @@ vars == <<stage, scn, out>>
 
 Vals == IF Wide THEN {3, 40000, 65535} ELSE {1, 2, 4}
 Cols == UNION {[1..n -> Vals] : n \in 1..MaxN}
-Containers == {"array-int", "array-float", "array-float-F", "sample-int", "sample-rfi", "sample-rfi-F", "sample-float32"}   \* -F: column-major buffer
+Containers == {"array-int", "array-float", "array-float-F", "sample-int", "sample-rfi", "sample-rfi-F", "sample-float32", "sample-double-used"}   \* -F: column-major buffer; -used: see the driver
                 \cup (IF Wide THEN {} ELSE {"array-int8", "sample-int8"})      \* 8-bit storage holds the small alphabet only
 Form(t, xs, named) == [t |-> t, xs |-> xs, named |-> named]
 Forms == {Form("absent", <<>>, <<>>), Form("pos", <<0>>, <<0>>), Form("pos", <<1>>, <<0>>), Form("name", <<1>>, <<1>>),
